@@ -346,3 +346,68 @@ func VerifC05_SubsetFourHosts() {
 	VerifC15_SubsetFourHosts()
 	verif.Cover("four-hosts")
 }
+
+// VerifC15_SubsetDeepSelector: one selector of 1..4 keys; three hosts agree on
+// all but the last key, whose value is x or y per host (every assignment).
+// For criteria naming all selector keys both builders report the subset's
+// true size and only choose hosts carrying every pair (the pre-index builder
+// builds its key combinations incrementally from shared prefixes, which only
+// shows with three or more keys).
+func VerifC15_SubsetDeepSelector() {
+	verif.Replace("math/rand.NewSource", func(int64) rand.Source { return zzAnySource{} })
+	keys := []string{"k1", "k2", "k3", "k4"}[:1+verif.Choose("selector_keys", 4)]
+	last := keys[len(keys)-1]
+	var hs []types.Host
+	for i := 0; i < 3; i++ {
+		meta := api.Metadata{}
+		for _, k := range keys {
+			meta[k] = "a"
+		}
+		meta[last] = []string{"x", "y"}[verif.Choose("last_value", 2)]
+		h := &zzMetaHost{meta: meta}
+		h.name, h.healthy, h.weight = zzHostNames[i], true, 10
+		hs = append(hs, h)
+	}
+	// selector keys are given in reverse order: the balancer sorts them
+	var sel []string
+	for i := len(keys) - 1; i >= 0; i-- {
+		sel = append(sel, keys[i])
+	}
+	cfg := &v2.LBSubsetConfig{FallBackPolicy: 0, SubsetSelectors: [][]string{sel}}
+	info := &zzSubInfo{sub: NewLBSubsetInfo(cfg), st: &types.ClusterStats{LBSubSetsFallBack: &zzLBCounter{}, LBSubsetsCreated: &zzSubGauge{}}}
+	for variant := 0; variant < 2; variant++ {
+		var lb types.LoadBalancer
+		if variant == 0 {
+			lb = NewSubsetLoadBalancer(info, NewHostSet(hs))
+		} else {
+			lb = NewSubsetLoadBalancerPreIndex(info, NewHostSet(hs))
+		}
+		for _, v := range []string{"x", "y"} {
+			var crit []zzCriterion
+			for _, k := range keys {
+				crit = append(crit, zzCriterion{k, "a"})
+			}
+			crit[len(crit)-1].v = v
+			var cs []api.MetadataMatchCriterion
+			for i := range crit {
+				cs = append(cs, &crit[i])
+			}
+			ctx := &zzSubCtx{ctx: variable.NewVariableContext(context.Background())}
+			ctx.crit = &zzCriteria{cs}
+			matching := 0
+			for _, h := range hs {
+				if zzHas(h, crit) {
+					matching++
+				}
+			}
+			verif.Assert(lb.HostNum(ctx.crit) == matching, "HostNum of a multi-key subset differs from the number of hosts carrying every pair")
+			r := lb.ChooseHost(ctx)
+			if matching == 0 {
+				verif.Assert(r == nil, "no host carries the pairs and fallback is none: no host")
+			} else {
+				verif.Assert(r != nil && zzHas(r, crit), "a request was not sent to a host carrying every criteria pair although the subset exists")
+			}
+		}
+	}
+	verif.Cover("end")
+}
